@@ -1,0 +1,24 @@
+//go:build verif
+
+package network
+
+// Contracts for the verif build tag (comment-only; see /verif/DESIGN.md).
+
+// C17, compressed message payloads: the compressor is always given a destination of the worst-case
+// block size, so a payload that does not shrink is still written whole (with a smaller buffer lz4
+// reports a zero-length block and the message would carry a length header only); the 4-byte header
+// is the source length.
+//@ prop C17
+//@ import lz4 github.com/pierrec/lz4
+//@ func compress
+//@ may-panic
+//@ opt frame off
+//@ call ::CompressBlock requires[room] len(arg1) >= lz4.bound(len(arg0)) && same(arg0, source)
+//@ call PutUint32 requires[header] arg2 == len(source) % 4294967296
+
+// the decompressor is given exactly the room the header announces (never more than the payload limit)
+//@ func decompress
+//@ may-panic
+//@ opt frame off
+//@ call ::UncompressBlock requires[room] len(arg1) == source[0] + source[1]*256 + source[2]*65536 + source[3]*16777216 && len(arg1) <= payload.MaxSize && len(arg0) == len(source) - 4
+//@ import payload github.com/nspcc-dev/neo-go/pkg/network/payload
